@@ -34,6 +34,7 @@ def _calls(e: ast.AST, suffix: str) -> bool:
 
 def run(ch: Checker) -> None:
     prog = ch.prog
+    ch.rule('C07.9', 'nobody sets SO_LINGER on a socket (expected 0 sites): close() with linger 0 discards output the kernel has not delivered yet', 1)
     ch.rule('C07.1', 'HttpProtocolHandler.handle_events: every `return True` is justified by an empty client buffer on the path, by the value of handle_writables '
                      '(client write failure / final flush done), or by plugin.write_to_descriptors (exempt: upstream write failure); results of handle_readables and '
                      'plugin.read_from_descriptors are only stored in self.reads_teared', 3)
@@ -309,6 +310,10 @@ def run(ch: Checker) -> None:
     extra = callers - allowed
     ch.check(not extra and callers, 'C07.4', prog.own_method('Threadless', '_cleanup'), 'who may tear a work down',
              '_cleanup called from %s' % sorted(callers), 'a new caller tears works down outside the enumerated reasons (task teardown, idle reaping, init failure, broken event refresh): %s' % sorted(extra))
+    # ---------------- C07.9 no SO_LINGER
+    from .common import no_linger_check
+    no_linger_check(ch, 'C07.9')
+
     # ---------------- C07.8 use after release
     from .common import use_after_release_check
     use_after_release_check(ch, 'C07.8')
@@ -316,6 +321,9 @@ def run(ch: Checker) -> None:
     # ---------------- C07.7 upstream side
     from .common import upstream_flush_check
     upstream_flush_check(ch, 'C07.7')
+
+    # ---------------- C07.10 (shared)
+    ch.import_rules('C10', {'C10.2': 'C07.10'}, 'threaded mode flushes pending output in shutdown() through the per-connection selector; descriptors left registered by an exceptional exit of _run_once make that flush fail before it wrote anything')
 
     # ---------------- C07.5 / C07.6 (shared)
     ch.import_rules('C01', {'C01.2': 'C07.5', 'C01.3': 'C07.6'}, 'output is delivered once and completely only if flush removes exactly what was sent and the counter that has_buffer() reads agrees with the queue')
